@@ -2,9 +2,12 @@
    Models: Model/C14Lut.v (lookup_table_set / lookup_table_rotate / mod_switch_2n / set_xai_plus_y, transcriptions of
    poulpy-bin-fhe/src/blind_rotation/{lut.rs, algorithms/mod.rs, utils.rs}), Model/C14Blind.v (the CGGI accumulator loops of
    algorithms/cggi/algorithm.rs at the level of phases), spec notions: Model/Poly.v, Model/C14Spec.v. *)
+(* C04's notions first, so that the C14 names (padd, pscale, chunks, ...) are the ones in scope below *)
+From PV Require Import Model.DftAbs Model.Gadget Model.GadgetSpec Proofs.C04Phase.
 From PV Require Import Base.MachineInt Model.Znx Model.Limbs Model.Ring Model.Poly
   Model.C14Lut Model.C14Spec Model.C14Blind Model.C14Run Model.C14Oracle.
-From PV Require Import Proofs.C14Rotate Proofs.C14Set Proofs.C14Poly Proofs.C14Blind Proofs.C14ModSwitch.
+From PV Require Import Proofs.C14Rotate Proofs.C14Set Proofs.C14Poly Proofs.C14Approx Proofs.C14Blind Proofs.C14Abstract Proofs.C14ModSwitch.
+From PV Require Import Proofs.C14FromC04.
 Open Scope Z_scope.
 
 (* ================= 1. interleaving the ext polynomials: a bijection onto coefficient lists of length N*ext ================= *)
@@ -147,24 +150,104 @@ Proof. exact xai_plus_y_poly. Qed.
 Print Assumptions C14_xai_plus_y_poly.
 
 (* ================= 5. the accumulator loops ================= *)
-(* standard CGGI over abstract ciphertexts: from the phase equation of the external product (C04, bounded error B), and the
-   phase equations of mul_xp_minus_one / add (C02):  phase(acc_final) = X^(sum a_i s_i) * phase(acc_0) + E, |E|_inf <= 2 B n_lwe *)
+(* ---- over ABSTRACT ciphertexts, with the error term ----
+   approx L M B x y  :=  x = y + E + M * J for some E, J of length L with |E|_inf <= B   (Proofs/C14Approx.v);
+   M = 2^P is the torus modulus at the working precision, B the bound on the error of one external product.
+   The external product enters only through `external_product_phase` (third hypothesis of each theorem), which is the
+   shape of C04_external_product_phase; C14_external_product_phase_from_C04 below derives it from C04. *)
+
+(* standard CGGI (execute_standard): with the phase equations of mul_xp_minus_one / add (C02),
+   phase(acc_final) = X^(sum a_i s_i) * phase(acc_0) + E + M J,  |E|_inf <= 2 B n_lwe *)
 Theorem C14_blind_rotation_phase :
-  forall (ct : Type) (phase : ct -> poly) (N : nat) (B : Z) (extprod : ct -> nat -> ct)
+  forall (ct : Type) (phase : ct -> poly) (N : nat) (M B : Z) (extprod : ct -> nat -> ct)
          (mulxp : Z -> ct -> ct) (ctadd : ct -> ct -> ct) (s : nat -> Z),
     (forall c : ct, length (phase c) = N) ->
     (forall i : nat, s i = 0 \/ s i = 1) ->
     (* external_product_phase *)
-    (forall (acc : ct) (i : nat), exists e : list Z,
-        length e = N /\ bounded B e /\ phase (extprod acc i) = padd (pscale (s i) (phase acc)) e) ->
+    (forall (acc : ct) (i : nat), approx N M B (phase (extprod acc i)) (pscale (s i) (phase acc))) ->
     (forall (a : Z) (c : ct), phase (mulxp a c) = xp_minus_one a (phase c)) ->
     (forall c d : ct, phase (ctadd c d) = padd (phase c) (phase d)) ->
     forall (av : list Z) (i : nat) (acc : ct),
-    exists E : list Z,
-      length E = N /\ bounded (2 * B * Z.of_nat (length av)) E /\
-      phase (std_loop ct extprod mulxp ctadd i av acc) = padd (zrot (expo s i av) (phase acc)) E.
+    approx N M (2 * B * Z.of_nat (length av)) (phase (std_loop ct extprod mulxp ctadd i av acc))
+      (zrot (expo s i av) (phase acc)).
 Proof. exact standard_phase. Qed.
 Print Assumptions C14_blind_rotation_phase.
+
+(* block-binary (execute_block_binary): per block, the update is linear in the products taken from the accumulator at the start
+   of the block (block_update_phase: DFT-domain linear algebra + final normalisation, up to Bn); at most one selected
+   coefficient per block (blk_ok);  |E|_inf <= sum over blocks (2 B |block| + Bn) *)
+Theorem C14_blind_rotation_phase_block_abstract :
+  forall (ct : Type) (phase : ct -> poly) (N : nat) (M B Bn : Z) (extprod : ct -> nat -> ct)
+         (blockupd : ct -> nat -> list Z -> ct) (s : nat -> Z),
+    (0 < N)%nat -> 0 <= B ->
+    (forall c : ct, length (phase c) = N) ->
+    (forall i : nat, s i = 0 \/ s i = 1) ->
+    (* external_product_phase *)
+    (forall (acc : ct) (i : nat), approx N M B (phase (extprod acc i)) (pscale (s i) (phase acc))) ->
+    (* block_update_phase *)
+    (forall (acc : ct) (i : nat) (blk : list Z),
+       approx N M Bn (phase (blockupd acc i blk)) (padd (phase acc) (psum N (blk_terms ct phase N extprod acc i blk)))) ->
+    forall (blks : list (list Z)) (i : nat) (acc : ct),
+    blk_ok s i blks ->
+    approx N M (blk_bound B Bn blks) (phase (blk_loop ct blockupd i blks acc)) (zrot (blk_expo s i blks) (phase acc)).
+Proof. exact block_phase. Qed.
+Print Assumptions C14_blind_rotation_phase_block_abstract.
+
+(* extended (execute_block_binary_extended): e accumulators; the statement lives in the big ring Z[Y]/(Y^(N e)+1) (zbig) *)
+Theorem C14_blind_rotation_phase_extended_abstract :
+  forall (ct : Type) (phase : ct -> poly) (N e : nat) (M B Bn : Z) (extprod : ct -> nat -> ct)
+         (eblockupd : list ct -> nat -> list Z -> list ct) (s : nat -> Z),
+    (0 < N)%nat -> (0 < e)%nat -> 0 <= B ->
+    (forall c : ct, length (phase c) = N) ->
+    (forall i : nat, s i = 0 \/ s i = 1) ->
+    (* external_product_phase *)
+    (forall (acc : ct) (i : nat), approx N M B (phase (extprod acc i)) (pscale (s i) (phase acc))) ->
+    (* ext_block_update_phase *)
+    (forall (accs : list ct) (i : nat) (blk : list Z), length accs = e ->
+       approxv e N M Bn (phases ct phase (eblockupd accs i blk)) (ext_target ct phase N extprod accs i blk)) ->
+    forall (blks : list (list Z)) (i : nat) (accs : list ct),
+    length accs = e -> eblk_ok s i blks ->
+    approx (N * e) M (eblk_bound B Bn blks) (zbig N (phases ct phase (eblk_loop ct eblockupd i blks accs)))
+      (zrot (eblk_expo s i blks) (zbig N (phases ct phase accs))).
+Proof. exact extended_phase. Qed.
+Print Assumptions C14_blind_rotation_phase_extended_abstract.
+
+(* the hypotheses of the abstract theorems are satisfiable (noise-free toy ciphertexts: M = 0, B = 0) *)
+Theorem C14_abstract_hypotheses_satisfiable :
+  forall (N : nat) (s : nat -> Z),
+    let phase := toy_phase N in
+    let extprod := fun (acc : poly) (i : nat) => pscale (s i) (phase acc) in
+    let mulxp := fun (a : Z) (c : poly) => xp_minus_one a (phase c) in
+    let ctadd := fun (c d : poly) => padd (phase c) (phase d) in
+    (forall c, length (phase c) = N) /\
+    (forall acc i, approx N 0 0 (phase (extprod acc i)) (pscale (s i) (phase acc))) /\
+    (forall a c, phase (mulxp a c) = xp_minus_one a (phase c)) /\
+    (forall c d, phase (ctadd c d) = padd (phase c) (phase d)).
+Proof. exact standard_hypotheses_satisfiable. Qed.
+Print Assumptions C14_abstract_hypotheses_satisfiable.
+
+(* external_product_phase from C04: ciphertexts = column lists, phase = Gadget.phase_val, acc [x] BRK_i = gadget_product with a key
+   K that is a GGSW encryption of the bit s.  Premises that remain: (1) C04_ggsw_cells (K encrypts const s with row errors e:
+   the key-encryption statement), (2) the bound B on the explicit error polynomial gadget_err of this product (C03/C04 bound
+   theorems), (3) the shape premises of C04 (every accumulator limb decomposed: a_size <= dnum * dsize). *)
+Theorem C14_external_product_phase_from_C04 :
+  forall (P b : Z) (n msize a_size dsize dnum : nat) (clamp : bool) (a res0 : cols_t) (K : pmat) (sk : list (list Z))
+         (s B : Z) (e I : nat -> nat -> list Z),
+    wf_cols n (S (length sk)) a_size a ->
+    acc_shape (S (length sk)) msize clamp res0 ->
+    wf_pmat_in n (dnum * S (length sk)) (msize * S (length sk)) K ->
+    (1 <= n)%nat -> (1 <= dsize)%nat -> (dsize - 2 <= msize)%nat -> (a_size <= dnum * dsize)%nat ->
+    (forall t : list Z, In t sk -> length t = n) ->
+    (forall row ci : nat, length (e row ci) = n) -> (forall row ci : nat, length (I row ci) = n) ->
+    0 <= b -> Z.of_nat msize * b <= P -> Z.of_nat dnum * Z.of_nat dsize * b <= P ->
+    s = 0 \/ s = 1 ->
+    C04_ggsw_cells P b n (length sk) msize dsize dnum K sk (const_poly n s) e I ->
+    bounded B (gadget_err P b n (S (length sk)) (S (length sk)) msize dsize dnum (acol n a) K (sk_ext n sk) e) ->
+    exists res : cols_t,
+      gadget_product n (S (length sk)) msize res0 a a_size dsize dnum msize clamp K = Some res /\
+      approx n (2 ^ P) B (phase_val P b n sk res) (Model.C14Blind.pscale s (phase_val P b n sk a)).
+Proof. exact external_product_phase_from_C04. Qed.
+Print Assumptions C14_external_product_phase_from_C04.
 
 (* the executable phase models run by the correspondence check (noise term dropped) *)
 Theorem C14_blind_rotation_phase_standard_model :
